@@ -25,17 +25,19 @@ CONSTANTS Depth,        \* 1: atoms only; 2: and/or/not over atoms
 
 \* ---------------------------------------------------------------- values
 NULL    == [t |-> "null", n |-> 0]
+NULLI   == [t |-> "nullint", n |-> 0]       \* null(int64): a typed null key
 MISSING == [t |-> "missing", n |-> 0]
 IntV(i)  == [t |-> "int", n |-> 2 * i]
 Flt15   == [t |-> "float", n |-> 3]        \* 1.5
 Str(i)  == [t |-> "str", n |-> i]          \* "a" < "b"
 
 Lits  == {IntV(0), IntV(1), IntV(2), IntV(3), Flt15, Str(0), Str(1), NULL}
-Keys  == Lits                               \* stored key values (non-missing)
+Keys  == Lits \cup {NULLI}                   \* stored key values (non-missing)
 AllK  == Keys \cup {MISSING}                \* what a record's key may evaluate to
 
 IsNum(v) == v.t \in {"int", "float"}
-IsNullish(v) == v.t \in {"null", "missing"}
+IsNullish(v) == v.t \in {"null", "nullint", "missing"}
+IsNullV(v) == v.t \in {"null", "nullint"}
 Sign(d) == IF d < 0 THEN -1 ELSE IF d > 0 THEN 1 ELSE 0
 \* order of type ids for values of different, non-numeric-compatible types
 TypeRank(v) == IF IsNum(v) THEN 0 ELSE IF v.t = "str" THEN 1 ELSE 2
@@ -66,12 +68,12 @@ EvalGen(op, a, b) ==
   IF a.t = "missing" \/ b.t = "missing" THEN "E"
   ELSE IF op \in {"==", "!="} THEN
        \* coerce.Equal: null == null is true; numbers numerically; else same type & bytes
-       LET eq == IF a.t = "null" \/ b.t = "null" THEN a.t = b.t
+       LET eq == IF IsNullV(a) \/ IsNullV(b) THEN IsNullV(a) /\ IsNullV(b)
                  ELSE IF IsNum(a) /\ IsNum(b) THEN a.n = b.n
                  ELSE a.t = b.t /\ a.n = b.n
        IN B(IF op = "==" THEN eq ELSE ~eq)
-  ELSE IF a.t = "null" /\ b.t = "null" THEN B(Conv(op, 0))
-  ELSE IF a.t = "null" \/ b.t = "null" THEN "F"
+  ELSE IF IsNullV(a) /\ IsNullV(b) THEN B(Conv(op, 0))
+  ELSE IF IsNullV(a) \/ IsNullV(b) THEN "F"
   ELSE IF IsNum(a) /\ IsNum(b) THEN B(Conv(op, Sign(a.n - b.n)))
   ELSE IF a.t # b.t THEN "F"
   ELSE B(Conv(op, Sign(a.n - b.n)))
@@ -84,9 +86,10 @@ EvalGen(op, a, b) ==
 EvalLit(op, kv, lit) ==
   IF lit.t = "null" THEN
        IF op \in {"==", "!="} THEN
-            IF kv.t = "missing" THEN "E" ELSE B((kv.t = "null") = (op = "=="))
+            IF kv.t = "missing" THEN "E" ELSE B(IsNullV(kv) = (op = "=="))
        ELSE EvalGen(op, kv, lit)
   ELSE IF kv.t = "missing" THEN "E"
+  ELSE IF IsNullV(kv) THEN "F"             \* a null value never matches a non-null literal
   ELSE IF IsNum(lit) THEN IF IsNum(kv) THEN B(Conv(op, Sign(kv.n - lit.n))) ELSE "F"
   ELSE IF kv.t = "str" THEN B(Conv(op, Sign(kv.n - lit.n))) ELSE "F"
 
@@ -166,13 +169,13 @@ NonVacuous ==
   /\ \E p \in Preds, r \in Ranges : Prune(p, r[1], r[2]) = "none"
 
 \* ------------------------------------------------------- case export
-KeySeq == <<IntV(0), IntV(1), Flt15, IntV(2), IntV(3), Str(0), Str(1), NULL, MISSING>>
+KeySeq == <<IntV(0), IntV(1), Flt15, IntV(2), IntV(3), Str(0), Str(1), NULL, NULLI, MISSING>>
 \* One record per predicate: the decision for each (i,j) range, the evaluation for each key.
-PruneRow(p) == [i \in 1..8 |-> [j \in 1..8 |->
+PruneRow(p) == [i \in 1..9 |-> [j \in 1..9 |->
                   IF TOrd(KeySeq[i], KeySeq[j]) <= 0 THEN Prune(p, KeySeq[i], KeySeq[j]) ELSE "-"]]
 Row(p) == [pred |-> p, prune |-> PruneRow(p),
-           evalT |-> [i \in 1..9 |-> Eval(p, KeySeq[i], TRUE)],
-           evalF |-> [i \in 1..9 |-> Eval(p, KeySeq[i], FALSE)]]
+           evalT |-> [i \in 1..10 |-> Eval(p, KeySeq[i], TRUE)],
+           evalF |-> [i \in 1..10 |-> Eval(p, KeySeq[i], FALSE)]]
 
 Export == OutFile = "" \/ ndJsonSerialize(OutFile, SetToSeq({Row(p) : p \in Preds}))
 
